@@ -1,18 +1,20 @@
 #!/usr/bin/env python3
 """usage: mkmutant.py <name> <file> <old> <new> [<file> <old> <new> ...]
-Creates /verif/mutants/<name>.patch by replacing text in /repo files (working tree restored afterwards)."""
-import sys,subprocess
+Creates /verif/mutants/<name>.patch by replacing text in a scratch copy of /repo (HEAD); /repo is not touched.
+Also reports whether the repository's own suite still passes with the change."""
+import sys,subprocess,tempfile,shutil,os
 name=sys.argv[1]; args=sys.argv[2:]
-assert subprocess.run(['git','-C','/repo','diff','--quiet']).returncode==0, "repo dirty"
+d=tempfile.mkdtemp(prefix='mkmut.')
 try:
+    subprocess.run('git -C /repo archive HEAD | tar -x -C %s && cd %s && git init -q . && git add -A && git -c user.email=a@b -c user.name=x commit -qm base'%(d,d),shell=True,check=True)
     for i in range(0,len(args),3):
         f,old,new=args[i:i+3]
-        p='/repo/'+f; s=open(p).read()
+        p=os.path.join(d,f); s=open(p).read()
         assert s.count(old)==1, (f, old, s.count(old))
         open(p,'w').write(s.replace(old,new))
-    d=subprocess.run(['git','-C','/repo','diff'],capture_output=True,text=True).stdout
-    open('/verif/mutants/%s.patch'%name,'w').write(d)
-    b=subprocess.run('cd /repo && GOFLAGS=-mod=mod go build ./... && go test -mod=mod -vet=off -count=1 . 2>&1 | tail -1',shell=True,capture_output=True,text=True)
+    diff=subprocess.run(['git','-C',d,'diff'],capture_output=True,text=True).stdout
+    open('/verif/mutants/%s.patch'%name,'w').write(diff)
+    b=subprocess.run('cd %s && export GOFLAGS=-mod=mod GOPROXY=off GOSUMDB=off GOTOOLCHAIN=local && go build ./... && go test -mod=mod -vet=off -count=1 . 2>&1 | tail -1'%d,shell=True,capture_output=True,text=True)
     print(name, 'suite:', b.stdout.strip(), b.stderr.strip()[:300])
 finally:
-    subprocess.run(['git','-C','/repo','checkout','--','.'])
+    shutil.rmtree(d,ignore_errors=True)
